@@ -190,6 +190,7 @@ namespace trompeloeil {
   const
   noexcept
   {
+    auto lock = get_lock();
     for (const auto& matcher : matchers)
     {
       if (!matcher.is_satisfied())
@@ -308,6 +309,7 @@ namespace trompeloeil {
   inline
   sequence_type::~sequence_type()
   {
+    auto lock = get_lock();
     bool touched = false;
     std::ostringstream os;
     while (!matchers.empty())
